@@ -10,6 +10,7 @@ import (
 	"path/filepath"
 	"runtime"
 	"sort"
+	"strconv"
 	"strings"
 	"sync"
 	"time"
@@ -93,23 +94,6 @@ func installC20Env() {
 // execTask runs a task program and returns its step records.
 func execTask(p TaskProg) (rec []string) { return execTaskAt(p, "solo") }
 
-// qHash / qHashBytes / qSprintf: the harness's own bookkeeping inside a task, invisible to the race detector's
-// happens-before tracking (see sched.Quiet).
-func qHash(v interface{}) (h string) {
-	sched.Quiet(func() { h = canon.Hash(v) })
-	return
-}
-
-func qHashBytes(b []byte) (h string) {
-	sched.Quiet(func() { h = canon.HashBytes(b) })
-	return
-}
-
-func qSprintf(format string, a ...interface{}) (s string) {
-	sched.Quiet(func() { s = fmt.Sprintf(format, a...) })
-	return
-}
-
 // execTaskAt runs a task program; tag makes the names of the files it writes unique within the scenario directory.
 func execTaskAt(p TaskProg, tag string) (rec []string) {
 	hook := func(kind string) {
@@ -125,11 +109,11 @@ func execTaskAt(p TaskProg, tag string) (rec []string) {
 	if p.MissingOpens > 0 && c20Dir != "" {
 		failed := 0
 		for k := 0; k < p.MissingOpens; k++ {
-			if _, err, pn := fileOpen(filepath.Join(c20Dir, qSprintf("%s-missing-%d.srt", tag, k))); err != nil || pn != "" {
+			if _, err, pn := fileOpen(filepath.Join(c20Dir, tag+"-missing-"+strconv.Itoa(k)+".srt")); err != nil || pn != "" {
 				failed++
 			}
 		}
-		rec = append(rec, qSprintf("openmissing:%d:failed=%d", p.MissingOpens, failed))
+		rec = append(rec, "openmissing:"+strconv.Itoa(p.MissingOpens)+":failed="+strconv.Itoa(failed))
 	}
 	sr := simio.NewReader(p.Doc, p.Plan)
 	sr.Hook = hook
@@ -162,7 +146,7 @@ func execTaskAt(p TaskProg, tag string) (rec []string) {
 		if c20Dir != "" {
 			norm = strings.ReplaceAll(norm, c20Dir, "<dir>") // the scenario directory differs from process to process
 		}
-		rec = append(rec, "read:error:"+qHashBytes([]byte(norm)))
+		rec = append(rec, "read:error:"+canon.HashBytes([]byte(norm)))
 		defer func() {
 			if err.Error() != msg {
 				rec = append(rec, "read:error-text-changed-after-return")
@@ -172,12 +156,12 @@ func execTaskAt(p TaskProg, tag string) (rec []string) {
 			mr := simio.NewReader(p.MergeDoc, simio.ReadPlan{Rest: 256})
 			mr.Hook = hook
 			if _, e2, _ := api.Read(p.MergeReader, mr.Wrap()); e2 != nil {
-				rec = append(rec, "read2:error:"+qHashBytes([]byte(e2.Error())))
+				rec = append(rec, "read2:error:"+canon.HashBytes([]byte(e2.Error())))
 			}
 		}
 		return rec
 	}
-	rec = append(rec, "read:ok:"+qHash(s))
+	rec = append(rec, "read:ok:"+canon.Hash(s))
 	var other *astisub.Subtitles
 	if len(p.MergeDoc) > 0 {
 		mr := simio.NewReader(p.MergeDoc, simio.ReadPlan{Rest: 256})
@@ -192,7 +176,7 @@ func execTaskAt(p TaskProg, tag string) (rec []string) {
 			rec = append(rec, "op:"+op.Name+":panic")
 			continue
 		}
-		rec = append(rec, "op:"+op.Name+":"+qHash(s))
+		rec = append(rec, "op:"+op.Name+":"+canon.Hash(s))
 	}
 	for wi, wf := range p.Writers {
 		wp := simio.WritePlan{}
@@ -201,7 +185,7 @@ func execTaskAt(p TaskProg, tag string) (rec []string) {
 		}
 		w := simio.NewWriter(wp)
 		w.Hook = hook
-		before := qHash(s)
+		before := canon.Hash(s)
 		err, pn := api.Write(wf, s, w.Wrap())
 		switch {
 		case pn != "":
@@ -209,9 +193,9 @@ func execTaskAt(p TaskProg, tag string) (rec []string) {
 		case err != nil:
 			rec = append(rec, "write:"+wf+":error")
 		default:
-			rec = append(rec, "write:"+wf+":ok:"+qHashBytes(w.Buf))
+			rec = append(rec, "write:"+wf+":ok:"+canon.HashBytes(w.Buf))
 		}
-		if qHash(s) != before {
+		if canon.Hash(s) != before {
 			rec = append(rec, "write:"+wf+":input-modified")
 		}
 	}
@@ -219,7 +203,7 @@ func execTaskAt(p TaskProg, tag string) (rec []string) {
 		if c20Dir == "" {
 			break
 		}
-		path := filepath.Join(c20Dir, qSprintf("%s-%d.%s", tag, k, ext))
+		path := filepath.Join(c20Dir, tag+"-"+strconv.Itoa(k)+"."+ext)
 		err, pn := fileWrite(s, path)
 		switch {
 		case pn != "":
@@ -234,7 +218,7 @@ func execTaskAt(p TaskProg, tag string) (rec []string) {
 			rec = append(rec, "file:"+ext+":unreadable")
 			continue
 		}
-		rec = append(rec, "file:"+ext+":ok:"+qHashBytes(b))
+		rec = append(rec, "file:"+ext+":ok:"+canon.HashBytes(b))
 		back, err, pn := fileOpen(path)
 		switch {
 		case pn != "":
@@ -242,7 +226,7 @@ func execTaskAt(p TaskProg, tag string) (rec []string) {
 		case err != nil:
 			rec = append(rec, "reopen:"+ext+":error")
 		default:
-			rec = append(rec, "reopen:"+ext+":ok:"+qHash(back))
+			rec = append(rec, "reopen:"+ext+":ok:"+canon.Hash(back))
 		}
 	}
 	return rec
@@ -250,7 +234,7 @@ func execTaskAt(p TaskProg, tag string) (rec []string) {
 
 // inputPath is where the document of a task that goes through Open is stored.
 func inputPath(p TaskProg) string {
-	return filepath.Join(c20Dir, "in-"+qHashBytes(p.Doc)+"."+p.OpenExt)
+	return filepath.Join(c20Dir, "in-"+canon.HashBytes(p.Doc)+"."+p.OpenExt)
 }
 
 // storeInputs writes the input files of a scenario (harness work, done before any task starts).
